@@ -89,6 +89,13 @@ def encodeBody (b : BinImage) : Bytes :=
   putFields 2 b.inheritNames ++ putFields 2 b.strings ++ putFields 2 b.varNames ++ putFields 2 b.funNames ++
   putField 2 b.lineInfo ++ putField 2 b.patches
 
+/-- the sections `encodeBody` / `encodeFile` write and `decodeBody` reads, under the names of the `[WRITE_*]` blocks, with
+    the width in bits of each length field (compared with the blocks of the source on every run:
+    `byte_model_follows_source_layout`) -/
+def modelLayout : List (String × Nat) :=
+  [("BINARY_PREAMBLE", 0), ("INCLUDE_LIST", 16), ("PROGRAM_NAME", 16), ("PROGRAM_STRUCTURE", 32), ("INHERIT_NAMES", 16),
+   ("STRING_TABLE", 16), ("VARIABLE_NAMES", 16), ("FUNCTION_NAMES", 16), ("LINE_NUMBERS", 16), ("PATCHES", 16), ("CHECKSUM", 32)]
+
 /-- `save_binary`: the body, then `[WRITE_CHECKSUM]` -/
 def encodeFile (b : BinImage) : Bytes :=
   let body := encodeBody b
